@@ -46,7 +46,14 @@ type verifC16Sess struct {
 	// outcome
 	established bool
 	note        string
+
+	// closed by the dialer once it has read the acceptor's reply: SCTPConn.Close drops what is still
+	// queued for sending, so the acceptor must not close before its reply was read
+	clientRead     chan struct{}
+	clientReadOnce sync.Once
 }
+
+func (s *verifC16Sess) signalClientRead() { s.clientReadOnce.Do(func() { close(s.clientRead) }) }
 
 func (s *verifC16Sess) String() string {
 	return fmt.Sprintf("#%d %s a+%dus d+%dus", s.Idx, s.Role, s.ADelay.Microseconds(), s.DDelay.Microseconds())
@@ -135,6 +142,7 @@ func (b *verifC16Batch) dialLoop(s *verifC16Sess, inst int, early bool, accDone 
 			continue
 		}
 		peer, err := verifC16Exchange(conn, s.Secret, "c", inst)
+		s.signalClientRead()
 		if err == nil {
 			ok = b.checkTag(s, "c", peer)
 		} else {
@@ -159,6 +167,12 @@ func (b *verifC16Batch) accept(s *verifC16Sess, ctx context.Context, afterReturn
 		tagOK = b.checkTag(s, "s", peer)
 	} else {
 		b.rec.Count("server_exchange_failed", 1)
+	}
+	if xerr == nil {
+		select {
+		case <-s.clientRead:
+		case <-time.After(10 * time.Second):
+		}
 	}
 	conn.Close()
 	return true, tagOK, nil
@@ -325,6 +339,7 @@ func (b *verifC16Batch) runSession(s *verifC16Sess) {
 			conn, err := b.dial(s, 3*time.Second)
 			if err == nil {
 				peer, xerr := verifC16Exchange(conn, s.Secret, "c", 0)
+				s.signalClientRead()
 				if xerr == nil {
 					b.checkTag(s, "c", peer)
 				}
@@ -365,7 +380,7 @@ func verifC16MakeBatch(rng *rand.Rand, n int) []*verifC16Sess {
 		"cancel-before", "cancel-registered", "cancel-racing", "cancel-racing", "expire", "unregistered"}
 	var out []*verifC16Sess
 	for i := 0; i < n; i++ {
-		s := &verifC16Sess{Idx: i, Secret: verifC16RandSecret(rng)}
+		s := &verifC16Sess{Idx: i, Secret: verifC16RandSecret(rng), clientRead: make(chan struct{})}
 		switch {
 		case i == 0:
 			s.Role = "pair"
